@@ -7,5 +7,7 @@ CONSTANTS
   MaxNodes = 4
   PairNodes = 0
   DoEmit = TRUE
+  AP = "-"
+  KP = "#"
 INVARIANTS Thm Emit
 CHECK_DEADLOCK FALSE
